@@ -111,3 +111,15 @@ def b1_step(s, n, sel, rng, top, sigma=SIGMA4):
 def desc(s):
     """Readable description of a value for samples / counter-examples."""
     return {'text': s.base_str, 'settings': S(s), 'str': str(s)}
+
+
+def build2(n, k, s1, r1, s2, r2, t2, sigma=SIGMA4, s3=0, r3=0, t3=True):
+    """Receiver from up to three builder steps (B1(k)); None when a selector is out of range."""
+    s = AnsiString(TEXT[:n])
+    if k >= 1 and b1_step(s, n, s1, r1, True, sigma) is None:
+        return None
+    if k >= 2 and b1_step(s, n, s2, r2, t2, sigma) is None:
+        return None
+    if k >= 3 and b1_step(s, n, s3, r3, t3, sigma) is None:
+        return None
+    return s
